@@ -23,7 +23,7 @@ RULE = ("seeded instance (flexible, irregular, recirculation, unused machine ids
 REAL = ["JobShopGraph", "build_disjunctive_graph", "build_solved_disjunctive_graph", "build_agent_task_graph (3 variants)", "Node",
         "Dispatcher / DispatchingRuleSolver / ORToolsSolver / Schedule.from_job_sequences as schedule sources", "networkx"]
 STUB = ["cp_model.CpSolver -> pinned subclass (CP-SAT source only)"]
-ASSUMPTIONS = ["where two edge kinds are prescribed for one ordered pair (consecutive operations of a job sharing a machine) either type is accepted",
+ASSUMPTIONS = ["where two edge kinds are prescribed for one ordered pair (consecutive operations of a job sharing a machine) the job-chain direction must be conjunctive",
                "equality of the critical path with the makespan is demanded for dispatcher-built schedules only"]
 STATE_MEASURE = "distinct (instance hash, schedule source, machine orders) tuples"
 
@@ -37,8 +37,9 @@ def generate(seed, tier):
     if source == "cpsat" and n_ops(spec) > 9:
         source = "dispatcher"
     names, style = gen_filter(rng, None, p_none=0.5)
+    other_size = gen_instance(rng, max_jobs=4, max_machines=4, max_ops=4) if rng.random() < 0.3 else None
     abandoned = [["dispatch", rng.randrange(64), rng.randrange(64), int(rng.random() < 0.5)] for _ in range(rng.randint(1, 4))] if rng.random() < 0.3 else []
-    return {"prop": PROP, "cfg": {"instance": spec, "source": source, "filter": names, "filter_style": style, "abandoned": abandoned,
+    return {"prop": PROP, "cfg": {"instance": spec, "source": source, "filter": names, "filter_style": style, "abandoned": abandoned, "other_size": other_size, "rejected_requests": rng.random() < 0.2,
                                   "second": rng.choice([None, None, "rule", "dispatcher"]),
                                   "rule": rng.choice(["shortest_processing_time", "most_work_remaining", "first_come_first_served", "random"]),
                                   "solver_seed": rng.randrange(1 << 30)},
@@ -106,8 +107,26 @@ def execute(case, ctx):
     jobs = as_tuple(spec)
     inst = build(spec)
     ctx.step = 0
+    kept = {}
     for name in BUILDERS:
-        check_builder(ctx, inst, jobs, name)
+        kept[name] = check_builder(ctx, inst, jobs, name)
+    if cfg.get("other_size"):
+        # graphs of another instance (different size) are built in between; the graphs built before must not change
+        from ..instances import as_tuple as _t
+        other = build(cfg["other_size"])
+        for name in BUILDERS:
+            check_builder(ctx, other, _t(cfg["other_size"]), name)
+        for name, g in kept.items():
+            if g is None:
+                continue
+            want_nodes, want_edges = graph_spec(jobs, name)
+            ids = [n.node_id for n in g.nodes]
+            ctx.check(ids == list(range(len(want_nodes))), "nodes_equal_spec", lambda: f"{name}: node ids of a graph built earlier became {ids} after graphs of another instance were built", builder=name)
+            bad = [k for k in range(len(want_nodes)) if g.graph.nodes[k]["node"].node_id != k]
+            ctx.check(not bad, "nodes_equal_spec", lambda: f"{name}: networkx node attributes of nodes {bad} no longer carry their own id", builder=name)
+            got = {(int(u), int(v)) for u, v in g.graph.edges()}
+            ctx.check(got == set(want_edges), "no_extra_edge", lambda: f"{name}: edge set of a graph built earlier changed", builder=name)
+        ctx.probe("graphs_rechecked_after_other_instance")
     if is_flexible(spec):
         ctx.probe("flexible_instance_graphs")
     source = cfg["source"]
@@ -139,6 +158,16 @@ def execute(case, ctx):
                     break
                 cands = d.available_operations() if op[3] else d.raw_ready_operations()
                 o = cands[op[1] % len(cands)]
+                if cfg.get("rejected_requests") and op[1] % 3 == 0:
+                    # a refused request (ineligible machine) somewhere in the history must not change the schedule
+                    bad = [x for x in range(inst.num_machines) if x not in o.machines]
+                    if bad:
+                        try:
+                            d.dispatch(o, bad[op[2] % len(bad)])
+                        except Exception:  # noqa: BLE001
+                            ctx.fault("invalid_request:ineligible_machine")
+                        else:
+                            raise Foreign("C09", "ineligible machine accepted")
                 d.dispatch(o, o.machines[op[2] % len(o.machines)])
                 ctx.count("dispatch")
             if not d.schedule.is_complete():
